@@ -111,7 +111,7 @@ CLAIMS = {
 
 # properties whose obligations include refinement theorems about code REGENERATED from the source by tools/go2lean
 TRANSL = {
- "C01": "basic.Compute itself (validation, option resolution and defaults, transpose, the loop with its check schedule and stop rule, result assignment; MulVec as a hand-modelled extern), the convergence checker and Vector.Norm2 (translated with math.Sqrt/IsNaN/IsInf as uninterpreted parameters and proved to simulate the checker Compute is proved with, Props/TrChk) and the kernels one iteration is made of (AddVec/ScaleVec/VecDot/KBNSummer)",
+ "C01": "basic.Compute itself (validation, option resolution and defaults, transpose, the loop with its check schedule and stop rule, result assignment; MulVec as a hand-modelled extern), the convergence checker and Vector.Norm2 (translated with math.Sqrt/IsNaN/IsInf as uninterpreted parameters; Compute translated together with them refines the model under the stated hypotheses about sqrt on sums of squares, Props/TrSrc, Props/TrChk) and the kernels one iteration is made of (AddVec/ScaleVec/VecDot/KBNSummer)",
  "C02": "basic.Compute itself, the canonicalisers that establish its hypotheses (Canonicalize, CanonicalizeTrustVector, CanonicalizeLocalTrust) and the kernels one iteration is made of (AddVec/ScaleVec/VecDot/KBNSummer)",
  "C04": "basic.Canonicalize, CanonicalizeTrustVector and CanonicalizeLocalTrust",
  "C05": "basic.Compute itself (schedule resolution: checkFreq default 1, minIterations default checkFreq, maxIterations 0 = unlimited; the loop), the convergence checker (Props/TrChk) and the nine option constructors of computeopts.go (each sets only its own field)",
